@@ -243,6 +243,9 @@ impl CkSut {
 }
 
 impl Sut for CkSut {
+    fn config(&self) -> Value {
+        json!([self.f.bucketsize(), self.f.n_buckets(), self.f.l_fingerprint()])
+    }
     const TAG: &'static str = "ck";
     fn uid(&self) -> usize {
         Rc::as_ptr(&self.u) as usize
